@@ -1275,8 +1275,57 @@ def roundTripModelRow (sc : List String) : List String :=
       let okPossible := (TransportConn.step s0 (.done 1 .ok)).isSome
       ["write", "read", if !rf && okPossible then "return:response" else "return:error"]
 
+/-- the idle stack: a pooled conn that has just completed an exchange, in a group that is closed or not -/
+def releaseConnModelRow (sc : List String) : List String :=
+  let gc := flag sc "groupClosed"
+  let pre : List TransportConn.Event := (if gc then [.closeIdle 1] else []) ++ [.new 1 1 1 [⟨2, 5⟩], .recv 1 5, .done 1 .ok]
+  match TransportConn.run pre with
+  | none => ["model: no such state"]
+  | some s0 =>
+    -- the model takes `release` only with the `accepted` that the group's state dictates
+    match TransportConn.step s0 (.release 1 (!gc)), TransportConn.step s0 (.release 1 gc) with
+    | some s1, none =>
+      ["lock", "defer:unlock"] ++ (if (s1.conns 1).st == .idle then ["push"] else []) ++ [if !gc then "return:true" else "return:false"]
+    | _, _ => ["model: release not determined"]
+
+def grabConnModelRow (sc : List String) : List String :=
+  let pre : List TransportConn.Event :=
+    if flag sc "idleEmpty" then [] else [.new 1 1 1 [⟨2, 5⟩], .recv 1 5, .done 1 .ok, .release 1 true]
+  match TransportConn.run pre with
+  | none => ["model: no such state"]
+  | some s0 =>
+    match TransportConn.step s0 (.grab 1) with
+    | some s1 => ["lock", "defer:unlock"] ++ (if (s1.conns 1).st == .grabbed then ["pop", "return:conn"] else ["?"])
+    | none => ["lock", "defer:unlock", "return:nil"]
+
+def removeConnModelRow (sc : List String) : List String :=
+  -- `isThisConn`: the conn is (still) in the idle stack when its timer fires
+  let pre : List TransportConn.Event :=
+    [.new 1 1 1 [⟨2, 5⟩], .recv 1 5, .done 1 .ok, .release 1 true] ++ (if flag sc "isThisConn" then [] else [.grab 1])
+  match TransportConn.run pre with
+  | none => ["model: no such state"]
+  | some s0 =>
+    match TransportConn.step s0 (.remove 1) with
+    | some s1 => ["lock", "defer:unlock"] ++ (if (s1.conns 1).st == .closing then ["pop", "return:true"] else ["?"])
+    | none => ["lock", "defer:unlock", "return:false"]
+
+def closeIdleConnsModelRow (_ : List String) : List String :=
+  match TransportConn.run [.new 1 1 1 [⟨2, 5⟩], .recv 1 5, .done 1 .ok, .release 1 true] with
+  | none => ["model: no such state"]
+  | some s0 =>
+    match TransportConn.step s0 (.closeIdle 1) with
+    | none => ["model: event not enabled"]
+    | some s1 =>
+      ["lock"] ++ (if (s1.conns 1).st != .idle then ["clearIdle"] else []) ++
+      (if s1.closedGroups.contains 1 then ["markClosed"] else []) ++ ["unlock"] ++
+      (if (s1.conns 1).st == .closing then ["closeConn"] else [])
+
 /-- the extracted decision tables are the models' transitions -/
 theorem flow_tables_are_the_models :
+    Gen.MuxFacts.releaseConnFlow.all (fun (sc, eff) => releaseConnModelRow sc == eff) = true ∧
+    Gen.MuxFacts.grabConnFlow.all (fun (sc, eff) => grabConnModelRow sc == eff) = true ∧
+    Gen.MuxFacts.removeConnFlow.all (fun (sc, eff) => removeConnModelRow sc == eff) = true ∧
+    Gen.MuxFacts.closeIdleConnsFlow.all (fun (sc, eff) => closeIdleConnsModelRow sc == eff) = true ∧
     Gen.MuxFacts.doRequestFlow.all (fun (sc, eff) => doRequestModelRow sc == eff) = true ∧
     Gen.MuxFacts.roundTripFlow.all (fun (sc, eff) => roundTripModelRow sc == eff) = true ∧
     Gen.MuxFacts.waitResponseFlow.all (fun (sc, eff) => waitResponseModelRow sc == eff) = true ∧
